@@ -20,7 +20,8 @@ LEVEL_TEXT = ('Static decision of the structural necessary conditions: every poi
               'optimiser is called with bounds built from the problem\'s bounds and a method that clips to them; '
               'start point, objective and stored value of the refinement are wired to the same problem and trial; no '
               'input of the optimiser call reads state left behind by an earlier refinement and a start-overriding '
-              'option is computed from x0; the probe returns the value of the holder the objective returned.')
+              'option is computed from x0; the probe returns the value of the holder the objective returned; only an optimiser that starts from the '
+              'best trial and returns its best evaluated point is adopted.')
 EXPLANATION = ('Provenance of evaluated points is read off path summaries; the cube bound is an inductive invariant '
                'checked on the syntax of the level loop plus a closure (type-like) check of every store into the '
                'orientation arrays; the affine map is compared algebraically; the optimiser call is checked on its '
